@@ -635,19 +635,65 @@ type isoResult struct {
 	Crash  string   // last lines of the child's stderr if it did not finish
 	Viols  []string // ownership violations the tracker reported before the crash
 	Reruns int
+	Races  []string // race detector reports other than the router's known shutdown race
+	Known  int      // reports of the known shutdown race
+}
+
+// raceReports splits a race detector log into reports and drops the one race that scion has by
+// design: udpConnection.stop closes the send queue (runtime.closechan) while a processor, the
+// internal link or a BFD sender may be in Link.Send on it (documented in notes/C14.md).
+func raceReports(log string) []string {
+	var out []string
+	for _, rep := range strings.Split(log, "==================") {
+		if !strings.Contains(rep, "DATA RACE") {
+			continue
+		}
+		if strings.Contains(rep, "runtime.closechan") &&
+			strings.Contains(rep, "udpip.(*udpConnection).stop") {
+			knownRaces.Add(1)
+			continue
+		}
+		if len(rep) > 2500 {
+			rep = rep[:2500]
+		}
+		out = append(out, strings.TrimSpace(rep))
+	}
+	return out
+}
+
+var knownRaces atomic.Int64
+
+// buildRace builds this command with the race detector (thorough tier).
+func buildRace(out string) (string, string) {
+	if raceEnabled {
+		exe, _ := os.Executable()
+		return exe, ""
+	}
+	_ = os.MkdirAll(out, 0o755)
+	bin := filepath.Join(out, "c14.race")
+	args := []string{"build", "-race", "-tags", "verif"}
+	if repo := os.Getenv("VERIF_REPO"); repo != "" && repo != "/repo" {
+		alt := filepath.Join(filepath.Dir(out), "alt.mod")
+		if _, err := os.Stat(alt); err == nil {
+			args = append(args, "-modfile="+alt)
+		}
+	}
+	args = append(args, "-o", bin, "./cmd/c14")
+	ctx, cancel := context.WithTimeout(context.Background(), 20*time.Minute)
+	defer cancel()
+	cmd := exec.CommandContext(ctx, "go", args...)
+	if b, err := cmd.CombinedOutput(); err != nil {
+		return "", "race build failed: " + err.Error() + ": " + tail(string(b), 400)
+	}
+	return bin, ""
 }
 
 // runIsolated runs case i in a child process (this binary with C14_CHILD set). A crash without
 // any ownership violation reported by the tracker is retried (up to 3 times): stopping a router whose BFD
 // sessions transmit is inherently racy (udpConnection.stop closes the send queue before the
 // sessions are stopped) although the runner waits for a quiet moment.
-func runIsolated(i int) *isoResult {
+func runIsolated(i int, exe string, race bool) *isoResult {
 	r := &isoResult{}
-	exe, err := os.Executable()
-	if err != nil {
-		r.Crash = err.Error()
-		return r
-	}
 	for attempt := 0; attempt < 4; attempt++ {
 		dir, err := os.MkdirTemp("", "c14-")
 		if err != nil {
@@ -655,16 +701,32 @@ func runIsolated(i int) *isoResult {
 			return r
 		}
 		resPath, violPath := filepath.Join(dir, "result.json"), filepath.Join(dir, "viol.txt")
-		ctx, cancel := context.WithTimeout(context.Background(), 90*time.Second)
+		limit := 90 * time.Second
+		if race {
+			limit = 6 * time.Minute
+		}
+		ctx, cancel := context.WithTimeout(context.Background(), limit)
 		cmd := exec.CommandContext(ctx, exe, os.Args[1:]...)
 		cmd.Env = append(os.Environ(), "C14_CHILD="+strconv.Itoa(i), "C14_RESULT="+resPath,
 			"C14_VIOL="+violPath)
+		if race {
+			cmd.Env = append(cmd.Env,
+				"GORACE=log_path="+filepath.Join(dir, "race")+" exitcode=0 halt_on_error=0")
+		}
 		var stderr strings.Builder
 		cmd.Stderr = &stderr
 		runErr := cmd.Run()
 		cancel()
 		b, rerr := os.ReadFile(resPath)
 		vb, _ := os.ReadFile(violPath)
+		r.Races = nil
+		if race {
+			logs, _ := filepath.Glob(filepath.Join(dir, "race.*"))
+			for _, l := range logs {
+				rb, _ := os.ReadFile(l)
+				r.Races = append(r.Races, raceReports(string(rb))...)
+			}
+		}
 		os.RemoveAll(dir)
 		if runErr == nil && rerr == nil {
 			var out caseOut
@@ -741,7 +803,7 @@ func main() {
 		"non-trivial = buffers were returned by at least 3 different stages and at least one fault " +
 		"path (partial or failed write, or a queue-full/invalid drop) was taken"
 	rng := vgen.NewRand(run.Seed)
-	nc := run.Count(48, 1500)
+	nc := run.Count(48, 96)
 
 	// Child mode: execute one case in this process and write the result (see runIsolated).
 	if ci := os.Getenv("C14_CHILD"); ci != "" {
@@ -772,6 +834,21 @@ func main() {
 	for i := 0; i < nc; i++ {
 		cfgs[i] = genCfg(rng.Fork(uint64(i)), i)
 	}
+	exe, _ := os.Executable()
+	race := false
+	if run.Tier == "thorough" || os.Getenv("C14_RACE") != "" {
+		// thorough tier: the same traffic under the Go race detector; any report other than the
+		// router's known shutdown race fails the check
+		if bin, note := buildRace(run.Out); note == "" {
+			exe, race = bin, true
+			run.Extra("race_detector", "on")
+		} else {
+			run.Extra("race_detector", "off: "+note)
+			run.Violate(-1, "thorough tier: the race-enabled runner could not be built: "+note, nil)
+		}
+	} else {
+		run.Extra("race_detector", "off (quick tier)")
+	}
 	sem := make(chan struct{}, 4)
 	var wg sync.WaitGroup
 	for i := 0; i < nc; i++ {
@@ -783,7 +860,7 @@ func main() {
 		go func(i int) {
 			defer wg.Done()
 			defer func() { <-sem }()
-			res[i] = runIsolated(i)
+			res[i] = runIsolated(i, exe, race)
 		}(i)
 	}
 	wg.Wait()
@@ -792,6 +869,10 @@ func main() {
 		if !run.Want() {
 			run.Skip()
 			continue
+		}
+		for _, rep := range res[i].Races {
+			run.Tally("race-report")
+			run.Violate(i, "data race reported by the Go race detector", rep, "data-race")
 		}
 		if res[i].Reruns > 0 {
 			run.Tally("case-rerun-after-crash-without-ownership-violation")
@@ -892,6 +973,10 @@ func main() {
 				id, cfg, out.N, len(out.Events), len(out.Threads), stagesPut, out.Leaked,
 				out.LeakedBy, out.Direct, sb.String())
 		}
+	}
+	if race {
+		run.Extra("race_reports_known_shutdown_race", knownRaces.Load())
+		_ = os.Remove(exe)
 	}
 	run.Finish()
 }
